@@ -127,10 +127,13 @@ fn strains_direct(d: &Difficulty, map: &Beatmap) -> String {
 
 fn perf_setters<'a>(p: Performance<'a>, d: &Difficulty, k: usize) -> Performance<'a> {
     let p = p.difficulty(d.clone());
-    match k % 3 {
+    // every kind of score setting that has to survive a mode change: accuracy, hit results, combo, misses and the priority
+    match k % 5 {
         0 => p,
         1 => p.accuracy(93.7).misses(1),
-        _ => p.n300(2).n100(1).combo(3).misses(1),
+        2 => p.n300(2).n100(1).combo(3).misses(1),
+        3 => p.hitresult_priority(rosu_pp::any::HitResultPriority::WorstCase).misses(1).n100(1),
+        _ => p.hitresult_priority(rosu_pp::any::HitResultPriority::WorstCase).accuracy(88.0),
     }
 }
 
